@@ -17,7 +17,8 @@ ID = "C17"
 LEVEL = "fault_enumeration"
 RULE = ("fault plans over generated trees (depth <= 4, content files), search run as uid 65534: (i) every single directory "
         "of the tree made unlistable in turn (thorough: every subset of <= 3), (ii) files made unreadable, (iii) dangling "
-        "links; queries metadata-only / content-derived / aggregate, bfs and dfs, streamed and ordered. Oracle: rows == "
+        "links, (iv) failing archive readers under the `archives` option (`*.zip` names on text, empty files, dangling links, "
+        "unreadable files); queries metadata-only / content-derived / aggregate, bfs and dfs, streamed and ordered. Oracle: rows == "
         "the fault-free rows of every entry outside the unlistable directories (the directory itself is still listed), "
         "stderr names each failing path, exit status 1; the fault-free control run exits 0 with empty stderr; an "
         "unreadable file keeps its row and metadata cells, its content cells are empty, all other rows are unchanged and "
@@ -54,8 +55,30 @@ def examples(tier):
 def strategy_(draw, tier):
     spec = trees.grow(draw, [4, 6, 9, 12, 16], _names, _leaf, dir_ratio=(2, 5), max_depth=4)
     qkind = draw(st.sampled_from(["meta", "content", "aggregate", "meta-ordered"]))
-    return {"kind": "tree-faults", "tree": spec, "query": qkind, "mode": draw(st.sampled_from(["", "bfs", "dfs"])),
+    mode = draw(st.sampled_from(["", "bfs", "dfs", "archives", "archives dfs"]))
+    if mode.startswith("archives"):
+        # failing *readers*: every k-th leaf becomes an archive by name - text that is no zip, an empty file, a
+        # dangling link; with file faults the first of them is also unreadable for the searching user
+        k = draw(st.sampled_from([1, 2, 3]))
+        spec = _zip_names(spec, k)
+    return {"kind": "tree-faults", "tree": spec, "query": qkind, "mode": mode,
             "file_faults": draw(st.sampled_from([0, 1, 2])), "subset": draw(st.sampled_from([1, 1, 2, 3])) if tier == "thorough" else 1}
+
+
+def _zip_names(spec, k):
+    cnt = [0]
+
+    def go(ch):
+        outd = {}
+        for nm, n in ch.items():
+            if n["t"] == "d":
+                outd[nm] = dict(n, ch=go(n["ch"]))
+                continue
+            cnt[0] += 1
+            new = nm + ".zip" if (cnt[0] % k == 0 and not nm.endswith(".zip") and (nm + ".zip") not in ch) else nm
+            outd[new] = n
+        return outd
+    return go(spec)
 
 
 def strategy(tier):
@@ -117,6 +140,21 @@ def check_tree_faults(out, case):
         ents = model.observe(base, ".")
         dirs = [e for e in ents if e.kind == "d"]
         files = [e for e in ents if e.kind == "f"]
+        if "archives" in case["mode"]:
+            # no generated file is a real zip archive: every archive reader fails (not a zip, empty, dangling link)
+            # and must cost nothing but its own members - the rows are exactly the entries of the tree
+            files.sort(key=lambda e: (not e.name.endswith(".zip"), e.path))
+            if case["query"] in ("meta", "meta-ordered", "content"):
+                gotp = collections.Counter(r[0] for r in control)
+                wantp = collections.Counter(e.path for e in ents)
+                if gotp != wantp:
+                    out.add("C17/reader-fault/rows/%s" % ("lost" if wantp - gotp else "extra"), query=q,
+                            lost=sorted((wantp - gotp).elements())[:5], extra=sorted((gotp - wantp).elements())[:5])
+            elif control and control[0][0] != str(len(ents)):
+                out.add("C17/reader-fault/aggregate", query=q, got=control[0][0], want=len(ents))
+            if any(e.name.endswith(".zip") for e in ents):
+                out.classes.append("failing-archive-readers")
+                nt.append("%s|%s|readers" % (canon(case["tree"]), q))
         tkey = canon(case["tree"])
         # (i) directory faults
         plans = [[d] for d in dirs]
